@@ -93,6 +93,8 @@ def verify_contract(reg: Registry, c: Contract, cfg: Config) -> FunctionReport:
             if name not in args:
                 args[name] = d.make(it, name)
         for gname, gval in c.ghost.items():
+            if gname in it.ghost and gval is None:
+                continue  # already established by the contract's setup
             it.ghost[gname] = gval.make(it, f"ghost:{gname}") if hasattr(gval, "make") else gval
         path.inputs = args
         pre = C.snapshot(args)
